@@ -140,6 +140,7 @@ def check(ck):
                        "serving a request modifies %s: later or concurrent requests can observe it" % bad, q.loc(fi, n))
             else:
                 ck.ok("C13.3", "%s: %s" % (q.fn(fi), desc), "receiver %s is per-request" % prov.show(t)[:80], q.loc(fi, n))
+    common.check_no_shared_mutable(ck, "C13.3")
     ck.floor("C13.3", 8)
 
     # ---- C13.4 form follows the request -----------------------------------------------------------------
